@@ -27,7 +27,7 @@ def showNack : Nack → String
   | .tlslayer => "tlslayer"
 
 def showOut : Out → Option String
-  | .tx _ v _ => some ("tx:" ++ showView v)
+  | .tx _ v _ _ => some ("tx:" ++ showView v)
   | .req t p => some s!"req:{t}:{p}"
   | .rsp t c => some s!"rsp:{t}:{c}"
   | .nack r t _ => some s!"nack:{showNack r}:{t.getD "-"}"
